@@ -24,6 +24,15 @@ TWINS = [
     ("C06-b13", "src/nunavut/lang/c/__init__.py", "                dep_types.uses_integer or dep_types.uses_boolean_static_array or dep_types.uses_variable_length_array",
      "                dep_types.uses_integer or dep_types.uses_variable_length_array", "C06", "R-C06-STD-INCLUDES"),
     ("C12-b11", "src/nunavut/jinja/__init__.py", "lambda: LimitEmptyLines(limit_empty_lines)", "lambda: LimitEmptyLines(limit_empty_lines or 1)", "C15", None),
+    # round 7 refactorings
+    ("C11-b10", "src/nunavut/_namespace.py", "            name, _, _ = name.rpartition(\".\")", "            name, _, _ = name.partition(\".\")", "C11", "R-C11-LINKS"),
+    ("C14-b9", "src/nunavut/lang/c/support/serialization.j2", "        *last_dst = (*last_dst & (uint8_t)~mask) | (*last_src & mask);", "        *last_dst = (uint8_t)(*last_src & mask);", "C14", "R-C14-RMW"),
+    ("C05-b10", "src/nunavut/lang/cpp/templates/_definitions.j2", "MAX_INDEX = {{ union_options | length }}U;", "MAX_INDEX = {{ union_options | length - 1 }}U;", "C05", "R-C05-SOURCE"),
+    ("C16-b9", "src/nunavut/jinja/loaders.py", "for loader in (self._fsloader, self._package_loader) if loader is not None]", "for loader in (self._package_loader, self._fsloader) if loader is not None]", "C16", "R-C16-PRECEDENCE"),
+    ("C12-b10", "src/nunavut/cli/runners.py", "        return [self._build_ext_program_postprocessor(run_program), set_file_mode]", "        return [set_file_mode, self._build_ext_program_postprocessor(run_program)]", "C12", "R-C12-MODE"),
+    ("C19-b9", "src/nunavut/jinja/jinja2/parser.py", "        return bool(marker) and marker[-1] == '*'", "        return bool(marker) and marker[-1] in '*%'", "C19", "R-C19-PARSER"),
+    ("C20-b9", "src/nunavut/lang/html/__init__.py", "        service_name, _ = instance.full_name.rsplit(\".\", 1)", "        service_name, _ = instance.full_name.split(\".\", 1)", "C20", "R-C20-ANCHOR"),
+    ("C13-b10", "src/nunavut/lang/_language.py", "        loaded = self._load_config()\n        self._config = loaded\n        return loaded", "        loaded = self._load_config()\n        return loaded", "C13", "R-C13-ORDER"),
 ]
 
 
